@@ -271,3 +271,53 @@ func fuzzSeedsIDL() []string {
 }
 
 func TestReplay(t *testing.T) { RunReplay(t, envInt("VERIF_REPLAY_REPEAT", 1)) }
+
+// TestC09Bytes: every byte value inserted at, and substituted for, every position of a few valid descriptions
+// (bounded-exhaustive): the place where a parser meets a byte it has no class for.
+func TestC09Bytes(t *testing.T) {
+	bases := []string{
+		"interface a.b\nmethod F(a: int) -> (b: ?[]string)\n",
+		"# doc\ninterface a.b\n\ntype T (x: [string]int, y: (p, q))\n# d\nmethod F() -> ()\nerror E (why: T)\n",
+		"interface a.b\r\nmethod F()->()\r\nerror E\r\n",
+		"interface xn--a.b-c\ntype A B\nmethod Fx9(a_b: ?A, c: [](d: B)) -> ()\n",
+	}
+	shard, nshards := Shard()
+	bi, pos, val, mode, n := 0, 0, 0, 0, 0
+	next := func() (BytesCase, bool) {
+		for bi < len(bases) {
+			b := bases[bi]
+			if pos > len(b) {
+				bi, pos = bi+1, 0
+				continue
+			}
+			var out string
+			ok := true
+			if mode == 0 {
+				out = b[:pos] + string([]byte{byte(val)}) + b[pos:]
+			} else if pos < len(b) {
+				out = b[:pos] + string([]byte{byte(val)}) + b[pos+1:]
+			} else {
+				ok = false
+			}
+			mode++
+			if mode == 2 {
+				mode = 0
+				val++
+				if val == 256 {
+					val = 0
+					pos++
+				}
+			}
+			if !ok {
+				continue
+			}
+			n++
+			if n%nshards != shard {
+				continue
+			}
+			return mkBytesCase([]byte(out), "byte-edit", false), true
+		}
+		return BytesCase{}, false
+	}
+	RunCases(t, propC09, "C09Bytes", true, next)
+}
